@@ -12,9 +12,17 @@
      op 3  SCC:                 18 3 <graph> flags status ncomps {<Subnodes(c)>}* hascof <SubnodeComponent(0..n-1)> nouts {<Out(c)>}* pure
              flags: 1 SCCSubnodeComponent, 2 SCCEdges; hascof = 1 iff flags != 0 (otherwise the list is empty);
              Out(c) is listed for every component (all empty without SCCEdges).
+     op 4  MakeBiGraph:         18 4 <graph> status n {<In(j)>}^n outsame idem pure
+             outsame = 1 iff NumNodes/Out of the result equal the argument's; idem = 1 iff MakeBiGraph(b) == b.
+     op 5  Equal:               18 5 <g1> <g2> status result pure
+     op 6  SimplifyMulti:       18 6 <graph> weighted n {<weights(i)>}^n status <Out graph> n' {<OutWeight(i,.)>}^n' pure
+             weights are float64 bit patterns; weighted = 0: a plain graph (weight lists empty, unit weights).
+     op 7  SubgraphKeep:        18 7 <graph> <nodes> <edges flat: node edge ...> status n' { old <Out(i)> <EdgeMap(i,.) flat> }^n' pure
+     op 8  SubgraphRemove:      18 8 <graph> <nodes> <edges flat> status n' { old <Out(i)> <EdgeMap(i,.) flat> }^n' pure
+             old = NodeMap(identity)(i); EdgeMap with the pairing map, flattened node edge node edge ...
    Verdict tag = 0 for a trivial case, else 256*op + branch bits (listed per op). *)
 From Coq Require Import FMapPositive.
-From MM Require Import Base.Num Base.GCGraph Base.GCReach Model.Marks Spec.Dfs Model.Order Spec.Scc.
+From MM Require Import Base.Num Base.GCGraph Base.GCReach Model.Marks Spec.Dfs Model.Order Spec.Scc Model.Graph Model.Subgraph.
 Open Scope Z_scope.
 
 Definition pfail {A} : parser A := fun _ => None.
@@ -62,20 +70,20 @@ Definition check_marks : parser (list Z) :=
 (* ------------------------------------------------------------------ graph decoding *)
 (* n { deg target* }^n, one structural pass over the line (no per-list length scans) *)
 Fixpoint pg_go (l : list Z) (k d : Z) (cur : list N) (acc : graph) {struct l} : option (graph * list Z) :=
-  if (d <? 0) && (k =? 0) then Some (rev acc, l) else
+  if (d <? 0) && (k =? 0) then Some (rev_append acc [], l) else
   match l with
   | [] => None
   | x :: r =>
       if x <? 0 then None
       else if d <? 0 then (if x =? 0 then pg_go r (k - 1) (-1) [] ([] :: acc) else pg_go r k x [] acc)
-      else if d =? 1 then pg_go r (k - 1) (-1) [] (rev (Z.to_N x :: cur) :: acc)
+      else if d =? 1 then pg_go r (k - 1) (-1) [] (rev_append (Z.to_N x :: cur) [] :: acc)
       else pg_go r k (d - 1) (Z.to_N x :: cur) acc
   end.
 Definition p_graph : parser graph := fun l =>
   match l with n :: r => if n <? 0 then None else pg_go r n (-1) [] [] | [] => None end.
 
 Fixpoint ptake (l : list Z) (k : Z) (acc : list Z) {struct l} : option (list Z * list Z) :=
-  if k <=? 0 then Some (rev acc, l) else
+  if k <=? 0 then Some (rev_append acc [], l) else
   match l with [] => None | x :: r => ptake r (k - 1) (x :: acc) end.
 (* count-prefixed list of integers *)
 Definition p_Zs : parser (list Z) := fun l =>
@@ -101,7 +109,7 @@ Definition oeq (expected : option (list Z)) (obs : list Z) : bool :=
    4 a visited node id >= 1024 (mark storage grew), 8 root has a self-loop, 16 more than one node
    visited, 32 root outside the graph (the call panics), 64 more than 1024 nodes visited *)
 Definition trav_bits (out : N -> list N) (n : N) (root : N) (pre : list N) : Z :=
-  let deg := fold_left (fun a u => (a + length (out u))%nat) pre O in
+  let deg := fold_left (fun a u => (length (out u) + a)%nat) pre O in
   let k := length pre in
   Z.lor (if (k <? S deg)%nat && negb (S deg =? k)%nat then 1 else 0)
   (Z.lor (if (N.of_nat k <? n)%N then 2 else 0)
@@ -194,11 +202,197 @@ Definition check_scc : parser (list Z) :=
           | Some k => verdict V_MISMATCH (mk_tag 3 (Z.lor bits 128)) k [3; k]
           end).
 
+(* ------------------------------------------------------------------ op 4: MakeBiGraph *)
+Fixpoint lists_match (f : N -> list Z) (obs : list (list Z)) (j : N) : option Z :=
+  match obs with
+  | [] => None
+  | l :: t => if list_Z_eqb (f j) l then lists_match f t (j + 1)%N else Some (Z.of_N j)
+  end.
+
+(* branch bits: 1 some node has several predecessors, 2 a parallel edge (a source listed twice),
+   4 a self-loop, 8 a node without predecessors, 16 >= 1024 nodes *)
+Definition bi_bits (g : graph) (ins : list (list Z)) : Z :=
+  Z.lor (if existsb (fun l => (1 <? length l)%nat) ins then 1 else 0)
+  (Z.lor (if existsb (fun l => match l with a :: b :: _ => a =? b | _ => false end) ins then 2 else 0)
+  (Z.lor (if existsb (fun l => (length l =? 0)%nat) ins then 8 else 0)
+         (if (1024 <=? length g)%nat then 16 else 0))).
+
+Definition check_bigraph : parser (list Z) :=
+  do g <- p_graph; do status <- pZ; do ins <- plist_any p_Zs; do outsame <- pZ; do idem <- pZ; do pure <- pZ;
+  pend (if negb (g_wfb g) then verdict V_MALFORMED 0 (-1) [4]
+        else
+          let preds := bi_build g in
+          let bits := bi_bits g ins in
+          let w := first_false [ status =? 0; (length ins =? length g)%nat;
+                                 match lists_match (fun j => ZsN (gm_out preds j)) ins 0%N with None => true | Some _ => false end;
+                                 outsame =? 1; idem =? 1; pure =? 1 ] in
+          match w with
+          | None => verdict V_OK (mk_tag 4 bits) (-1) []
+          | Some k => verdict V_MISMATCH (mk_tag 4 (Z.lor bits 128)) k [4; k]
+          end).
+
+(* ------------------------------------------------------------------ op 5: Equal *)
+(* branch bits: 1 equal, 2 different, 4 node counts differ, 8 some list differs in order only
+   (decided after sorting), 16 identical lists throughout *)
+Definition eq_bits (g1 g2 : graph) (r : bool) : Z :=
+  Z.lor (if r then 1 else 2)
+  (Z.lor (if negb (length g1 =? length g2)%nat then 4 else 0)
+  (Z.lor (if r && negb (Ns_eqb (concat g1) (concat g2)) then 8 else 0)
+         (if r && Ns_eqb (concat g1) (concat g2) then 16 else 0))).
+Definition check_equal : parser (list Z) :=
+  do g1 <- p_graph; do g2 <- p_graph; do status <- pZ; do res <- pZ; do pure <- pZ;
+  pend (if negb (g_wfb g1 && g_wfb g2) then verdict V_MALFORMED 0 (-1) [5]
+        else
+          let r := g_equal g1 g2 in
+          let w := first_false [ status =? 0; res =? (if r then 1 else 0); pure =? 1 ] in
+          match w with
+          | None => verdict V_OK (mk_tag 5 (eq_bits g1 g2 r)) (-1) []
+          | Some k => verdict V_MISMATCH (mk_tag 5 (Z.lor (eq_bits g1 g2 r) 128)) k [5; k]
+          end).
+
+(* ------------------------------------------------------------------ op 6: SimplifyMulti *)
+Local Open Scope Q_scope.
+Fixpoint zipw (ts : list N) (ws : list Z) : option wadj :=
+  match ts, ws with
+  | [], [] => Some []
+  | t :: ts', w :: ws' =>
+      match decode_bits w, zipw ts' ws' with
+      | XFin q, Some r => Some ((t, q) :: r)
+      | _, _ => None
+      end
+  | _, _ => None
+  end.
+Fixpoint zipwg (g : graph) (ws : list (list Z)) : option wgraph :=
+  match g, ws with
+  | [], [] => Some []
+  | l :: g', w :: ws' => match zipw l w, zipwg g' ws' with Some a, Some r => Some (a :: r) | _, _ => None end
+  | _, _ => None
+  end.
+Definition wadj_eqb (a b : wadj) : bool :=
+  Ns_eqb (map fst a) (map fst b) &&
+  (fix go (x y : wadj) := match x, y with
+                          | [], [] => true
+                          | (_, p) :: x', (_, q) :: y' => Qeq_bool p q && go x' y'
+                          | _, _ => false end) a b.
+Fixpoint wgraph_eqb (a b : wgraph) : bool :=
+  match a, b with
+  | [], [] => true
+  | x :: a', y :: b' => wadj_eqb x y && wgraph_eqb a' b'
+  | _, _ => false
+  end.
+Local Close Scope Q_scope.
+
+(* branch bits: 1 some parallel edges were merged, 2 weighted input, 4 unweighted input,
+   8 a merged target that is not adjacent to its first occurrence, 16 nothing to merge *)
+Definition simp_bits (g : graph) (weighted : Z) (r : wgraph) : Z :=
+  let merged := negb (length (concat r) =? length (concat g))%nat in
+  Z.lor (if merged then 1 else 16) (if weighted =? 0 then 4 else 2).
+
+Definition check_simplify : parser (list Z) :=
+  do g <- p_graph; do weighted <- pZ; do ws <- plist_any p_Zs; do status <- pZ;
+  do rg <- p_graph; do rws <- plist_any p_Zs; do pure <- pZ;
+  pend (if negb (g_wfb g) then verdict V_MALFORMED 0 (-1) [6]
+        else
+          match (if weighted =? 0 then Some (unit_weights g) else zipwg g ws), zipwg rg rws with
+          | Some wg, Some obs =>
+              let r := simplify_multi wg in
+              let w := first_false [ status =? 0; (length obs =? length g)%nat; wgraph_eqb r obs; pure =? 1 ] in
+              match w with
+              | None => verdict V_OK (mk_tag 6 (simp_bits g weighted r)) (-1) []
+              | Some k => verdict V_MISMATCH (mk_tag 6 (Z.lor (simp_bits g weighted r) 128)) k [6; k]
+              end
+          | Some _, None => if status =? 0 then verdict V_MISMATCH (mk_tag 6 128) 2 [6; 2] else verdict V_MISMATCH (mk_tag 6 128) 0 [6; 0]
+          | None, _ => verdict V_MALFORMED 0 (-1) [6]
+          end).
+
+(* ------------------------------------------------------------------ op 7/8: SubgraphKeep / SubgraphRemove *)
+Fixpoint pairs_of (l : list Z) : option (list (Z * Z)) :=
+  match l with
+  | [] => Some []
+  | a :: b :: t => option_map (cons (a, b)) (pairs_of t)
+  | _ => None
+  end.
+Record sg_obs := mkSgObs { so_old : Z; so_out : list Z; so_emap : list Z }.
+Definition p_sgobs : parser sg_obs := do o <- pZ; do a <- p_Zs; do b <- p_Zs; pret (mkSgObs o a b).
+
+Definition sg_node_eqb (nd : sgnode) (o : sg_obs) : bool :=
+  (Z.of_N (sg_old nd) =? so_old o) && list_Z_eqb (ZsN (sg_out nd)) (so_out o) &&
+  list_Z_eqb (flat_map (fun e => [Z.of_N (sg_old nd); Z.of_N e]) (sg_oldedges nd)) (so_emap o).
+Fixpoint sg_eqb (s : subgraph) (obs : list sg_obs) : bool :=
+  match s, obs with
+  | [], [] => true
+  | nd :: s', o :: obs' => sg_node_eqb nd o && sg_eqb s' obs'
+  | _, _ => false
+  end.
+
+(* compare an expected result (None = panic) with the observation *)
+Definition sg_verdict (op : Z) (bits : Z) (expected : option subgraph) (status : Z) (obs : list sg_obs) (pure : Z) : list Z :=
+  let w := match expected with
+           | None => first_false [ status =? 2; pure =? 1 ]
+           | Some s => first_false [ status =? 0; sg_eqb s obs; pure =? 1 ]
+           end in
+  match w with
+  | None => verdict V_OK (mk_tag op bits) (-1) []
+  | Some k => verdict V_MISMATCH (mk_tag op (Z.lor bits 128)) k [op; k]
+  end.
+
+(* branch bits (keep): 1 some edge kept, 2 the call panics, 4 a lookup of a node that is not kept fell
+   back to 0 (edge source or target not among the kept nodes), 8 all nodes kept, 16 an edge kept twice,
+   32 no node kept *)
+Definition check_keep : parser (list Z) :=
+  do g <- p_graph; do nodes <- p_Zs; do eflat <- p_Zs; do status <- pZ; do obs <- plist_any p_sgobs; do pure <- pZ;
+  pend (if negb (g_wfb g) then verdict V_MALFORMED 0 (-1) [7]
+        else match pairs_of eflat with
+        | None => verdict V_MALFORMED 0 (-1) [7]
+        | Some edges =>
+            let neg := existsb (fun x => x <? 0) nodes || existsb (fun x => x <? 0) eflat in
+            let nodesN := NsZ nodes in
+            let edgesN := map (fun e => (Z.to_N (fst e), Z.to_N (snd e))) edges in
+            let expected := if neg then None else subgraph_keep g nodesN edgesN in
+            let fallback := existsb (fun e => negb (existsb (N.eqb (fst e)) nodesN)
+                                              || match nth_error (g_out g (fst e)) (N.to_nat (snd e)) with
+                                                 | Some t => negb (existsb (N.eqb t) nodesN) | None => false end) edgesN in
+            let bits := match expected with
+                        | None => 2
+                        | Some s =>
+                            Z.lor (if existsb (fun nd => (0 <? length (sg_out nd))%nat) s then 1 else 0)
+                            (Z.lor (if fallback then 4 else 0)
+                            (Z.lor (if (length nodes =? length g)%nat then 8 else 0)
+                            (Z.lor (if negb (no_dup_b (map (fun e => (fst e * 4194304 + snd e)%N) edgesN)) then 16 else 0)
+                                   (if (length nodes =? 0)%nat then 32 else 64))))
+                        end in
+            sg_verdict 7 bits expected status obs pure
+        end).
+
+(* branch bits (remove): 1 a node removed, 2 the call panics, 4 an edge removed by name, 8 an edge dropped
+   because its target was removed, 16 nothing removed, 32 ids outside the graph among the arguments *)
+Definition check_remove : parser (list Z) :=
+  do g <- p_graph; do nodes <- p_Zs; do eflat <- p_Zs; do status <- pZ; do obs <- plist_any p_sgobs; do pure <- pZ;
+  pend (if negb (g_wfb g) then verdict V_MALFORMED 0 (-1) [8]
+        else match pairs_of eflat with
+        | None => verdict V_MALFORMED 0 (-1) [8]
+        | Some edges =>
+            let expected := subgraph_remove g nodes edges in
+            let n := Z.of_nat (length g) in
+            let bits := match expected with
+                        | None => 2
+                        | Some s =>
+                            let kept_edges := length (concat (map sg_out s)) in
+                            Z.lor (if (length s <? length g)%nat then 1 else 0)
+                            (Z.lor (if existsb (fun e => negb (zmem (fst e) nodes) && (0 <=? fst e) && (fst e <? n)) edges then 4 else 0)
+                            (Z.lor (if (length s <? length g)%nat && (kept_edges <? length (concat g))%nat then 8 else 0)
+                            (Z.lor (if (length s =? length g)%nat && (kept_edges =? length (concat g))%nat then 16 else 0)
+                                   (if existsb (fun x => (x <? 0) || (n <=? x)) nodes then 32 else 0))))
+                        end in
+            sg_verdict 8 bits expected status obs pure
+        end).
+
 (* ------------------------------------------------------------------ dispatch *)
 Definition check_C18 (line : list Z) : list Z :=
   match line with
   | 18 :: op :: rest =>
-      let p := if op =? 1 then check_marks else if op =? 2 then check_trav else if op =? 3 then check_scc else pfail in
+      let p := if op =? 1 then check_marks else if op =? 2 then check_trav else if op =? 3 then check_scc else if op =? 4 then check_bigraph else if op =? 5 then check_equal
+               else if op =? 6 then check_simplify else if op =? 7 then check_keep else if op =? 8 then check_remove else pfail in
       match p rest with
       | Some (v, _) => v
       | None => verdict V_MALFORMED 0 (-1) [op]
